@@ -9,6 +9,7 @@ From Coq Require Import List ZArith QArith Bool Permutation Sorted Reals.
 From EV Require Import MsmBase MsmCfgGen Msm MsmProofs MsmSpectrum MsmReal.
 From EV Require Counts Trim Builders.
 Import ListNotations.
+Open Scope Q_scope.
 
 (* ===== the estimator and its configuration =====
 
@@ -247,7 +248,7 @@ Print Assumptions c16_example_spectrum.
 
 Example c16_example_ensemble :
   ensemble [[1 # 2; 1 # 2]; [1 # 4; 3 # 4]] [1; 0] 3 =
-    Some ([192 # 512; 320 # 512], [[1; 0]; [4 # 8; 4 # 8]; [192 # 512; 320 # 512]])
+    Some ([3 # 8; 5 # 8], [[1; 0]; [1 # 2; 1 # 2]; [3 # 8; 5 # 8]])
   /\ map (map Qred) (mpow [[1 # 2; 1 # 2]; [1 # 4; 3 # 4]] 2) = [[3 # 8; 5 # 8]; [5 # 16; 11 # 16]].
 Proof. vm_compute. split; reflexivity. Qed.
 Print Assumptions c16_example_ensemble.
